@@ -6,10 +6,18 @@ LEVELS = {
     'C20': 'proof',
     'C02': 'proof',
     'C05': 'proof',
+    'C06': 'proof',
 }
 EXPLAIN = {}
 NOT_CLAIMED = {}
 CLAIMS = {
+    'C06': dict(
+        engine='symnp (E2)',
+        design_ref='DESIGN.md §6 C06',
+        technique='contract-based deductive verification: copy()/landmark-manager contracts over an abstract state view and a reachable-storage (heap separation) analysis of the real objects, symbolic values',
+        text='copy(): equal state, disjoint reachable mutable storage (documented sharing excepted), no value-dependent branch, and write-through cross-checks, for 8 shape classes, 4 image configurations, LandmarkManager, 12 homogeneous classes, chain, TPS, PWA, RBF, WithDims, linear/PCA models (trimmed and not), LazyList; 8 public mutators do not leak between copy and original; every landmark-manager operation (set/get/delete/iterate/copy/assign-to-owner/transform) satisfies its whole-view contract and preserves the invariant at 0-3 groups, which extends to all histories by induction (G0).',
+        note='Values universal, sizes bounded (k<=3 groups, small shapes); heap-separation => non-interference (G4) and induction over histories (G0) are paper arguments; unbounded group count would need the E1 engine.',
+    ),
     'C02': dict(
         engine='symnp (E2)',
         design_ref='DESIGN.md §6 C02',
